@@ -150,7 +150,7 @@ def run(run: common.Run):
     cli_faults(run, tmp, pair, bsig, model, kernel, mbm, njobs)
     compare_stats_faults(run, tmp, pair, mbm)
     persistent_read_failure(run, tmp, pair, mbm)
-    if run.only is None:
+    if run.only is None and not getattr(run, 'hung', False):
         cli_compare_stats_faults(run, tmp, pair, mbm)
 
 
@@ -228,14 +228,19 @@ def cli_compare_stats_faults(run, tmp, pair, mbm):
                 import threading
                 before = set(threading.enumerate())
                 try:
-                    res = CliRunner().invoke(cli.cli, ['compare', str(pair.src_path), str(pair.ref_path), '-t', str(T), '-mbm', repr(mbm),
-                                                       '--output', str(tmp / 'c09_cmp.json')])
-                    late = sc.stragglers(before)
+                    fin, res = sc.run_with_watchdog(lambda: CliRunner().invoke(
+                        cli.cli, ['compare', str(pair.src_path), str(pair.ref_path), '-t', str(T), '-mbm', repr(mbm),
+                                  '--output', str(tmp / 'c09_cmp.json')]), timeout=60)
+                    late = sc.stragglers(before) if fin else []
                 finally:
                     RasterCompare.read = orig_read
                 run.evaluations += 1
                 run.hist['cli compare / stats runs'] += 1
                 case = dict(i=4 * 10**6 + (k if k is not None else -1) * 10 + T, op='cli compare', fail_block=k, threads=T)
+                if not fin:
+                    run.fail(case, '`homonim compare` hung', signature=dict(kind='hang', op='cli compare'))
+                    run.hung = True
+                    return
                 if k is not None and cnt['n'] > k and res.exit_code == 0:
                     run.fail(case, f'`homonim compare` exited 0 although the read of block {k} failed', signature=dict(kind='cli-exit-zero', op='compare'))
                 elif late:
@@ -265,12 +270,17 @@ def cli_compare_stats_faults(run, tmp, pair, mbm):
                         return r
                     ParamStats.__enter__ = enter
                     try:
-                        res = CliRunner().invoke(cli.cli, ['stats', str(base.param_path), '--output', str(tmp / 'c09_st.json')])
+                        fin, res = sc.run_with_watchdog(lambda: CliRunner().invoke(
+                            cli.cli, ['stats', str(base.param_path), '--output', str(tmp / 'c09_st.json')]), timeout=60)
                     finally:
                         ParamStats.__enter__ = orig_enter
                     run.evaluations += 1
                     run.hist['cli compare / stats runs'] += 1
                     case = dict(i=5 * 10**6 + (k if k is not None else -1) * 10 + T, op='cli stats', method=meth, fail_call=k)
+                    if not fin:
+                        run.fail(case, '`homonim stats` hung', signature=dict(kind='hang', op='cli stats'))
+                        run.hung = True
+                        return
                     if k is not None and cnt2['n'] > k and res.exit_code == 0:
                         run.fail(case, f'`homonim stats` exited 0 although call {k} of {meth} failed', signature=dict(kind='cli-exit-zero', op='stats'))
                     elif k is None and res.exit_code != 0:
